@@ -90,6 +90,13 @@ def _(values: pandas.Series) -> set[int]:
 
 
 @find_nulls.register
+def _(values: pandas.DataFrame) -> set[int]:
+    # A data frame is a set of columns (see `as_columns`): a row is null if
+    # any of its cells is.
+    return set(numpy.flatnonzero(values.isnull().values.any(axis=1)))
+
+
+@find_nulls.register
 def _(values: numpy.ndarray) -> set[int]:
     if len(values.shape) == 0:
         if numpy.isnan(values):
